@@ -439,10 +439,16 @@ class BFGS(_AbstractMassMatrix):
         self.succesful_updates_current = 0
 
     def save(self):
-        self.backup = self.Minv.copy(), self.m.copy(), self.g.copy()
+        self.backup = (
+            self.Minv.copy(),
+            self.m.copy(),
+            self.g.copy(),
+            self.LTinv.copy(),
+        )
 
     def reset(self):
-        self.Minv, self.m, self.g = self.backup
+        # Restore the metric together with its factor, which generates the momenta
+        self.Minv, self.m, self.g, self.LTinv = [a.copy() for a in self.backup]
         self.ms, self.gs = [], []
 
     def update(self, m, g):
